@@ -86,6 +86,46 @@ def _nearest_binding(fn, use, name):
     return best
 
 
+def check_error_context(repo: Repo, res: Result, rule: str) -> None:
+    """``LiquidError._error_context(text, index)`` finds the line of ``index`` by adding up line
+    lengths: the lines must come from ``text.splitlines(keepends=True)`` (only then do the lengths
+    add up to ``len(text)``; without the line ends an index within the last <number of newlines>
+    characters matches no line and the helper raises ValueError), each length is added exactly once
+    per line, and the line is the first whose running total exceeds the index.  Warn mode formats
+    every error it suppresses, so this helper runs on every suppressed error (shared with C03)."""
+    f = repo.own_method("liquid.exceptions.LiquidError", "_error_context")
+    ps = [p_ for p_ in f.params() if p_ != "self"]
+    res.ob(f"{rule}:{f.qual}", 3)
+    if len(ps) != 2:
+        raise AnchorMissing("LiquidError._error_context no longer takes (text, index)")
+    p_text, p_index = ps
+    lines_vars = {}
+    for st in walk_no_nested(f.node):
+        if isinstance(st, ast.Assign) and len(st.targets) == 1 and isinstance(st.targets[0], ast.Name) and isinstance(st.value, ast.Call) and callee_name(st.value) == "splitlines" and is_name(call_recv(st.value), p_text):
+            kw = {k.arg: k.value for k in st.value.keywords}
+            keep = kw.get("keepends") or (st.value.args[0] if st.value.args else None)
+            lines_vars[st.targets[0].id] = isinstance(keep, ast.Constant) and keep.value is True
+    if not lines_vars:
+        raise AnchorMissing("_error_context no longer splits its text into lines with splitlines()")
+    for v, keeps in lines_vars.items():
+        if not keeps:
+            res.add(rule, f.qual, "keepends", f"{f.qual} adds up the lengths of `{p_text}.splitlines()` WITHOUT the line ends: the total falls short of len({p_text}) by one per newline, so for an error token near the end of a multi-line source no line is found and the formatter raises ValueError — in warn mode (where every suppressed error is formatted) the template raises instead of warning", f.file, f.line)
+    loops = [n for n in walk_no_nested(f.node) if isinstance(n, ast.For) and any(isinstance(x, ast.Name) and x.id in lines_vars for x in ast.walk(n.iter))]
+    ok = False
+    for lp in loops:
+        line_v = [x.id for x in ast.walk(lp.target) if isinstance(x, ast.Name)]
+        adds = [st for st in ast.walk(lp) if isinstance(st, ast.AugAssign) and isinstance(st.op, ast.Add) and isinstance(st.value, ast.Call) and is_name(st.value.func, "len") and st.value.args and isinstance(st.value.args[0], ast.Name) and st.value.args[0].id in line_v]
+        tests = [n for n in ast.walk(lp) if isinstance(n, ast.If) and isinstance(n.test, ast.Compare) and len(n.test.ops) == 1 and any(is_name(x, p_index) for x in (n.test.left, n.test.comparators[0])) and any(isinstance(b, ast.Break) for b in n.body)]
+        if len(adds) == 1 and tests:
+            t = tests[0].test
+            # index < total   (written either way round; strict)
+            acc = adds[0].target.id if isinstance(adds[0].target, ast.Name) else None
+            lt = (isinstance(t.ops[0], ast.Lt) and is_name(t.left, p_index) and is_name(t.comparators[0], acc)) or (isinstance(t.ops[0], ast.Gt) and is_name(t.left, acc) and is_name(t.comparators[0], p_index))
+            ok = bool(lt)
+    if not ok:
+        res.add(rule, f.qual, "scan", f"{f.qual} must find the line as the first one whose running total of len(line) exceeds the index", f.file, f.line)
+
+
 def run(repo: Repo) -> Result:
     res = Result(PID)
     res.rules = ["C20-TOKEN", "C20-SPAN", "C20-ERR"]
@@ -321,6 +361,7 @@ def run(repo: Repo) -> Result:
             if callee_name(c) == "_error_context":
                 if [text(a) for a in c.args] != ["self.token.source", "self.token.start_index"]:
                     res.add("C20-ERR", f.qual, f"args:{text(c)[:40]}", f"{f.qual} must compute the context from the token's own source and start_index", f.file, c.lineno)
+    check_error_context(repo, res, "C20-ERR")
     # LiquidError subclasses raised in parse-time modules carry token=
     n_raise = 0
     from ..engines.hnd import Hier
